@@ -1,7 +1,8 @@
 (* Reconciler/Refuted.v — the final clause of C16 ("the low watermark is the revision of the oldest
    failing change") is FALSE for the code before fix cd98c3d (commit_status_old: the retry item was
    re-queued with origRev := result.rev, the revision of the reconciler's own Error write):
-   one user change at revision 1 keeps failing, the watermark climbs 1, 2, 3. With the fix it stays. *)
+   one user change at revision 1 keeps failing, the watermark climbs 1, 2, 3. With the fix it stays.
+   (Both runs without the later Error-status fallback of 8844901; it plays no role here.) *)
 From Coq Require Import List NArith Bool.
 From SV Require Import Reconciler.Retries Reconciler.Model.
 Import ListNotations.
@@ -13,11 +14,11 @@ Definition drift_e0 : env := add_fault (add_fault (add_fault (env0 drift_cf) 1 0
 (* low watermark reported after the 1st, 2nd and 3rd failed attempt of the single user write (put 1),
    and the table contents at the end *)
 Definition run_drift (fixed : bool) : list N * list (N * N * N) :=
-  let (e, s) := settle_gen fixed 50 drift_cf drift_e0 (rstate0 drift_cf) in
+  let (e, s) := settle_gen fixed false 50 drift_cf drift_e0 (rstate0 drift_cf) in
   let e := do_write e 0 1 in
-  let (e, s1) := settle_gen fixed 50 drift_cf e s in
-  let (e, s2) := advance_gen fixed 50 50 drift_cf e s1 20 in
-  let (e, s3) := advance_gen fixed 50 50 drift_cf e s2 60 in
+  let (e, s1) := settle_gen fixed false 50 drift_cf e s in
+  let (e, s2) := advance_gen fixed false 50 50 drift_cf e s1 20 in
+  let (e, s3) := advance_gen fixed false 50 50 drift_cf e s2 60 in
   ([k_plwm s1; k_plwm s2; k_plwm s3], live_objs (e_tab e)).
 
 Theorem low_watermark_drift_refuted :
@@ -29,21 +30,26 @@ Theorem low_watermark_drift_refuted :
     run_drift true = ([1; 1; 1], [(1, 1, kind_code Error)]).
 Proof. exists drift_cf, drift_e0. repeat split; vm_compute; reflexivity. Qed.
 
-(* Reported defect (genuine, present in /repo): a foreign status-only write (a second reconciler on the
-   same object) over an object whose OUR status is Error re-stamps the revision; the retry's status
-   commit then fails the CompareAndSwap AND the Pending-id fallback, the result is dropped and no retry
-   is re-queued. Scenario: put 1 (attempts 0 and 1 fail), statx 1, then 1000 ms with NO further faults:
-   only two Update calls ever happen, the object stays Error, the target never receives it, the retry
-   low watermark stays at 1 forever. C14 convergence is false for this history. *)
+(* Defect fixed by 8844901 (efb = false is the code before that fix): a foreign status-only write (a
+   second reconciler on the same object) over an object whose OUR status is Error re-stamps the revision;
+   the retry's status commit then fails the CompareAndSwap AND the Pending-id fallback, the result is
+   dropped and no retry is re-queued. Scenario: put 1 (attempts 0 and 1 fail), statx 1, then 1000 ms with
+   NO further faults. Before the fix: only two Update calls ever happen, the object stays Error, the
+   target never receives it, the retry low watermark stays at 1 forever — C14 convergence is false for
+   this history. With the fix: third attempt at t=60 succeeds, object Done, target = table, watermark 0. *)
 Definition stuck_cf : cfg := mkCfg false 2 10 40 0 false.
-Definition run_stuck : list (N * N * N) * list (N * N) * N * N :=
+Definition run_stuck (efb : bool) : list (N * N * N) * list (N * N) * N * N :=
   let e0 := add_fault (add_fault (env0 stuck_cf) 1 0) 1 1 in
-  let (e, s) := settle 50 stuck_cf e0 (rstate0 stuck_cf) in
-  let (e, s) := settle 50 stuck_cf (do_write e 0 1) s in
-  let (e, s) := settle 50 stuck_cf (do_write e 4 1) s in
-  let (e, s) := advance 100 50 stuck_cf e s 1000 in
+  let (e, s) := settle_gen true efb 50 stuck_cf e0 (rstate0 stuck_cf) in
+  let (e, s) := settle_gen true efb 50 stuck_cf (do_write e 0 1) s in
+  let (e, s) := settle_gen true efb 50 stuck_cf (do_write e 4 1) s in
+  let (e, s) := advance_gen true efb 100 50 stuck_cf e s 1000 in
   (live_objs (e_tab e), e_target e, k_plwm s, N.of_nat (length (e_calls e))).
 
 Theorem convergence_refuted_by_foreign_status_write :
-  run_stuck = ([(1, 1, kind_code Error)], [], 1, 2).
+  run_stuck false = ([(1, 1, kind_code Error)], [], 1, 2).
+Proof. vm_compute. reflexivity. Qed.
+
+Theorem converges_after_foreign_status_write_fixed :
+  run_stuck true = ([(1, 1, kind_code Done)], [(1, 1)], 0, 3).
 Proof. vm_compute. reflexivity. Qed.
